@@ -133,7 +133,12 @@ def make_actor(root, script, counter=None):
                 job = p.open_job(a[1])
                 out.append(["doc", dread(jdoc(job), job.doc)])
             elif k == "Len":
-                out.append(["num", len(p)])
+                # logged like a read of the workspace directory itself: the count, with the number of this
+                # process's scheduled calls before and after
+                n0 = counter["n"]
+                cnt = len(p)
+                ops.append({"set": False, "file": ["p", WSN], "key": "", "val": cnt, "start": n0, "end": counter["n"]})
+                out.append(["num", cnt])
             elif k == "PDocSet":
                 dset(["p", PDOCF], p.doc, a[1], a[2])
                 out.append(["unit"])
